@@ -48,5 +48,11 @@ CLAIMED = {
   'note': 'The theorems are per slot; that every change of a slot (also of the opposite end) goes through one of the modelled mutators is checked by the history-level oracle, not proved (it found two bypasses, both repaired). Order across different (notifier, feature) pairs and no-change notifications are not judged. set.discard() is outside the property\'s operation list.',
   'technique': 'Lean 4 proof (one-step mirror lemma per mutator, induction over histories) + exhaustive small-scope differential correspondence of emitted notifications + independent observer-side oracle',
  },
+ 'C15': {
+  'text': 'Lean theorems C15_default / C15_never_set / C15_read_pure / C15_delete / C15_private / C15_private_reachable over the holder model (lazy EValue creation, get_default_value, type_as_factory, _isset, a heap of mutable values): a feature without holder reads its default and stays unset; a history without write/delete on (o,f) leaves eIsSet false; reads change neither _isset nor what save() looks at and are repeatable; del restores the default; under NoAlias (an invariant of every history when no declaration hands out a shared mutable default) mutating the value read from one feature changes no other feature. The default table `src` is read off the real declarations on every run and NoShared is a per-run table obligation. Kernel-checked counterexample for a shared default = recorded finding F-C15-1.',
+  'design_ref': 'DESIGN.md section 4 C15',
+  'note': 'Single-valued attributes over EInt-like, map-typed, list-typed and user data types. Trusted: the probing of get_default_value() (called twice per declaration) that builds the table; XMI save bytes before/after reads are compared by the oracle only.',
+  'technique': 'Lean 4 proof (NoAlias invariant, read purity) + per-run table obligation on regenerated default table + differential correspondence + independent oracle; known finding F-C15-1',
+ },
 }
 NOT_APPLICABLE = {}
